@@ -118,7 +118,13 @@ func readExifHeader(b *box, firstIfd ifds.IfdType, it imagetype.ImageType) (head
 	if logLevelInfo() {
 		logInfo().Object("box", b).Object("header", header).Send()
 	}
-	_, err = b.Discard(8)
+	// The Exif reader expects to start at the first IFD, which need not
+	// directly follow the 8 byte TIFF header.
+	skip := 8
+	if header.FirstIfdOffset > 8 {
+		skip = int(header.FirstIfdOffset)
+	}
+	_, err = b.Discard(skip)
 	return header, err
 }
 
